@@ -11,7 +11,7 @@ ASSUMPTIONS = ["J1939-22 (FD): correspondence/oracle only until Dll22 theorems e
 
 
 def correspondence(ctx):
-    return corr21.run(ctx, 40 if ctx.quick else 1000, 20 if ctx.quick else 500, 6, n_lossy=160 if ctx.quick else 6000)
+    return corr21.run(ctx, ctx.n(40, 1000), ctx.n(20, 500), 6, n_lossy=ctx.n(160, 6000))
 
 
 def shape_case(rng, shape, k, mode):
@@ -101,6 +101,8 @@ def oracle(ctx, full):
                 cases.append((sh, k, mode))
     if not big:
         cases = rng.sample(cases, 70)
+    else:
+        cases = cases[ctx.shard::ctx.shards]          # the exhaustive enumeration is partitioned over the workers
     findings, evals, distinct, samples = [], 0, set(), []
     for (sh, k, mode) in cases:
         sub = random.Random(rng.getrandbits(48))
